@@ -634,6 +634,10 @@ func (c05) Gen(r *kern.Rng, tier string, idx int) *Trace {
 	if r.Pct(40) {
 		sc.Ctor = "reset"
 	}
+	if r.Pct(25) {
+		// the Reader goes on to another source afterwards; the first source must stay as it was left
+		sc.Then = &scen.InputSpec{Parts: []scen.StreamSpec{genStream(r, pkg, 5000, 0)}}
+	}
 	return &Trace{Property: "C05", Family: "R-suffix", R: sc}
 }
 
@@ -700,6 +704,10 @@ func (c05) Exec(tr *Trace, keep bool) *Outcome {
 	}
 	if !rec.SrcRestKnown {
 		return o
+	}
+	if rec.ThenDone {
+		o.stat("runs_with_later_reset_to_another_source", 1)
+		feat["then"] = "true"
 	}
 	if !bytes.Equal(rec.SrcRest, suffix) {
 		o.violate(tr, "C05.position", fmt.Sprintf("after io.EOF the source holds %d bytes, expected the %d-byte suffix: %s", len(rec.SrcRest), len(suffix), diffAt(rec.SrcRest, suffix)), feat)
